@@ -27,6 +27,7 @@ import (
 	"strconv"
 	"strings"
 	"sync"
+	"sync/atomic"
 	"time"
 
 	"google.golang.org/genproto/googleapis/api/annotations"
@@ -635,25 +636,47 @@ func (e *rpcEnv) HandleRPC(ctx context.Context, s stats.RPCStats) {
 func (e *rpcEnv) TagConn(ctx context.Context, _ *stats.ConnTagInfo) context.Context { return ctx }
 func (e *rpcEnv) HandleConn(context.Context, stats.ConnStats)                       {}
 
-// watchStream is what a stream interceptor typically passes on: a wrapper that sees every message go by.
+// watchStream is what a stream interceptor typically passes on: a wrapper that sees every message go by.  Its
+// bookkeeping is atomic so that the wrapper itself can be used from the handler's goroutines; it also notices whether it
+// is still being used once the interceptor's handler has returned (the stream belongs to the interceptor again then, and
+// whatever state a wrapper keeps would be raced on).
 type watchStream struct {
 	grpc.ServerStream
-	recv, send int
+	nrecv, nsend atomic.Int32
+	returned     atomic.Bool  // set by the interceptor when its handler has returned
+	busy         atomic.Int32 // stream calls in progress
+	late         atomic.Int32 // stream calls that began after the handler had returned
 }
 
 func (w *watchStream) RecvMsg(m interface{}) error {
+	w.busy.Add(1)
+	defer w.busy.Add(-1)
+	if w.returned.Load() {
+		w.late.Add(1)
+	}
 	err := w.ServerStream.RecvMsg(m)
 	if err == nil {
-		w.recv++
+		w.nrecv.Add(1)
 	}
 	return err
 }
 func (w *watchStream) SendMsg(m interface{}) error {
+	w.busy.Add(1)
+	defer w.busy.Add(-1)
+	if w.returned.Load() {
+		w.late.Add(1)
+	}
 	err := w.ServerStream.SendMsg(m)
 	if err == nil {
-		w.send++
+		w.nsend.Add(1)
 	}
 	return err
+}
+
+// handlerReturned marks the end of the handler and reports the stream calls that are still in progress.
+func (w *watchStream) handlerReturned() int {
+	w.returned.Store(true)
+	return int(w.busy.Load())
 }
 
 func hasOpt(c RpcCase, o string) bool {
@@ -694,7 +717,7 @@ func newRpcEnv(c RpcCase) (*rpcEnv, error) {
 			err := handler(srv, ws)
 			e.mu.Lock()
 			e.icalls = append(e.icalls, ICall{Kind: "stream", Meth: info.FullMethod, CS: info.IsClientStream, SS: info.IsServerStream, Err: codeOf(err),
-				Recv: ws.recv, Send: ws.send, Tag: tagged(ss.Context(), e)})
+				Recv: int(ws.nrecv.Load()), Send: int(ws.nsend.Load()), Tag: tagged(ss.Context(), e)})
 			e.mu.Unlock()
 			return err
 		}))
